@@ -160,8 +160,11 @@ def impl_run(case):
                 "live_with_pipes": sum(1 for _, ps in live.values() if ps),
                 "live": len(live)}
 
+    graveyard = {}        # pid -> Process object that has been stopped (kill / reap): for the late remove_redirections
+
     def close_worker(pid, with_remove):
         proc, ps = live.pop(pid)
+        graveyard[pid] = proc
         outs = []
         st = {}
         for p in ps.values():            # the worker is dead: its write ends are gone
@@ -329,6 +332,15 @@ def impl_run(case):
                     o, s2 = close_worker(pid, with_remove=(k == "kill"))
                     outs += o
                     st.update(s2)
+            elif k == "lr":
+                # kill_process wakes from its nap after the periodic check has reaped the worker under it:
+                # remove_redirections(process) on the stopped Process object (its pipes are closed file objects)
+                pid = op[1]
+                if pid in live:
+                    raise Infra("late remove for a live pid (generator bug)")
+                if pid in graveyard:
+                    red.remove_redirections(graveyard[pid])
+                    outs += drain_log()
             elif k == "chg":
                 # `set <watcher> stdout_stream.<key> <val>`: Watcher._reload_stream builds a new stream, hands it to
                 # Redirector.change_stream and closes the old one
@@ -427,7 +439,7 @@ def model_line(case):
             toks += ["rd", str(op[1])]
         elif k == "cw":
             toks += ["cw", str(op[1]), op[2]]
-        elif k in ("kill", "reap"):
+        elif k in ("kill", "reap", "lr"):
             toks += [k, str(op[1])]
         else:
             toks.append(k)
@@ -625,9 +637,14 @@ def gen_case(rng, nops, maxw=4, disciplined=None, buffer=None):
             ops.extend(["rd", fd] for _ in range(reads))
             w["pend"][ch] = 0
 
+    dead = []             # pids that have been killed / reaped: candidates for a late remove_redirections
     while len(ops) < nops:
         r = rng.random()
         pids = sorted(sim.live)
+        if dead and rng.random() < 0.06:
+            # a kill_process that napped while the periodic check reaped its worker (and maybe a successor took the numbers)
+            ops.append(["lr", rng.choice(dead)])
+            continue
         if (not pids or (r < 0.12 and len(pids) < maxw)):
             po, pe = (True, True) if both else rng.choice([(True, True), (True, False), (False, True), (False, False)])
             sim.spawn(po, pe)
@@ -666,12 +683,14 @@ def gen_case(rng, nops, maxw=4, disciplined=None, buffer=None):
                 drain(pid, to_eof=False)
             ops.append(["kill", pid])
             sim.drop(pid)
+            dead.append(pid)
         elif r < 0.96:
             pid = rng.choice(pids)
             if disciplined:
                 drain(pid, to_eof=True)
             ops.append(["reap", pid])
             sim.drop(pid)
+            dead.append(pid)
         elif r < 0.975 and not disciplined:
             ops.append(["stop"])
         elif r < 0.99:
@@ -717,6 +736,15 @@ def gen_generations(rng, gens, disciplined, maxw=3):
         sim.spawn(True, True)
         ops.append(["start"])          # Watcher.spawn_process calls start() before every spawn
         ops.append(["sp", 1, 1])
+        if how == "reap" and rng.random() < 0.4:
+            # the kill_process that was napping on the reaped worker wakes up now that the successor has its numbers
+            ops.append(["lr", pid])
+            new = max(sim.live)
+            d2 = _chunk(rng, buf)
+            ops.append(["wr", new, "o", d2])
+            sim.live[new]["pend"]["o"] += len(d2)
+            ops.extend(["rd", sim.live[new]["fd"]["o"]] for _ in range(-(-len(d2) // buf)))
+            sim.live[new]["pend"]["o"] = 0
         if sib in sim.live:
             for ch, fd in sim.live[sib]["fd"].items():
                 ops.append(["rd", fd])
